@@ -821,6 +821,26 @@ class SymSeries:
     def all(self):
         return self.a.all()
 
+    def min(self):
+        return self.a.min()
+
+    def max(self):
+        return self.a.max()
+
+    def sum(self):
+        return self.a.sum()
+
+    def mean(self):
+        return self.a.mean()
+
+    @property
+    def empty(self):
+        return len(self.a.e) == 0
+
+    @property
+    def size(self):
+        return len(self.a.e)
+
     def astype(self, t):
         return SymSeries(self.a.astype(t), self.name)
 
@@ -921,7 +941,8 @@ class GDict:
             return [(int(key) if R.pytype(key) is int else key, True)]
         t, _ = R.num(key)
         dom = self._domain()
-        R.CTX.assumptions.append(z3.Or([t == k for k in dom]))
+        # the key lies in the declared domain -- on the paths that reach this access
+        R.CTX.assumptions.append(z3.Implies(R.zbool(R.CTX.guard), z3.Or([t == k for k in dom])))
         return [(k, t == k) for k in dom]
 
     def contains(self, key):
@@ -1009,16 +1030,43 @@ def _as_glist(v):
     raise Unsupported(f"cannot treat {type(v).__name__} as a guarded list")
 
 
+def _same_value(a, b):
+    if a is b:
+        return True
+    if is_sym(a) or is_sym(b):
+        return is_sym(a) and is_sym(b) and a.t.eq(b.t)
+    try:
+        return type(a) is type(b) and bool(a == b)
+    except Exception:   # noqa: BLE001
+        return False
+
+
+def _same_guard(a, b):
+    if a is b:
+        return True
+    if isinstance(a, bool) or isinstance(b, bool):
+        return a is b
+    return a.eq(b)
+
+
 def _glist_merge(self, c, other):
-    """entries present under c come from self, under not c from other; the shared prefix is kept"""
+    """entries present under c come from self, under not c from other.  Entries are aligned by
+    position while their values agree (append-only lists share their history), so that a branch that
+    merely re-guards old entries does not duplicate them."""
     other = _as_glist(other)
+    a, b = self.entries, other.entries
+    out = []
     i = 0
-    while i < len(self.entries) and i < len(other.entries) and self.entries[i] is other.entries[i]:
+    while i < len(a) and i < len(b) and _same_value(a[i][1], b[i][1]):
+        ga, gb = a[i][0], b[i][0]
+        if a[i] is b[i] or _same_guard(ga, gb):
+            out.append(a[i])
+        else:
+            out.append((R.zor(R.zand(c, ga), R.zand(R.znot(c), gb)), a[i][1]))
         i += 1
-    out = list(self.entries[:i])
-    out += [(R.zand(c, g), v) for g, v in self.entries[i:]]
-    out += [(R.zand(R.znot(c), g), v) for g, v in other.entries[i:]]
-    return GList(out)
+    out += [(R.zand(c, g), v) for g, v in a[i:]]
+    out += [(R.zand(R.znot(c), g), v) for g, v in b[i:]]
+    return GList([e for e in out if e[0] is not False])
 
 
 GList._merge = _glist_merge
